@@ -84,6 +84,160 @@ def backoff_suite(ctx, vh):
                        "theorems": ["C15_delay_exponential", "C15_first_delay"], "case": rows[bad_agree[0]]}, no_input=True)
 
 
+RC_HDR = "From SioV Require Import Base.GoSem Sio.Backoff Sio.Reconnect Sio.ReconnectCheck.\nLocal Open Scope Z_scope.\n"
+RC_FAIL = ("f503", "garbage", "hang", "extra")
+
+
+def rc_segments(row):
+    """cut script and recording at the rig's own actions"""
+    segs = []
+    for tok in row["script"]:
+        if tok in ("open", "drop", "close"):
+            segs.append({"in": tok, "dials": [], "ev": []})
+        else:
+            segs[-1]["dials"].append(tok)
+    cur = -1
+    for e in row["events"]:
+        k = e["k"]
+        if k in ("in:open", "in:drop", "in:close"):
+            cur += 1
+            if cur < len(segs):
+                segs[cur]["t0"] = e["t"]
+            continue
+        if k == "in:end":
+            cur = len(segs)          # whatever comes after the end marker belongs to no segment
+            segs.append({"in": "end", "dials": [], "ev": []})
+            continue
+        if 0 <= cur < len(segs):
+            segs[cur]["ev"].append(e)
+    return segs
+
+
+def rc_term(row):
+    segs = rc_segments(row)
+    out = []
+    for sg in segs:
+        if sg["in"] == "end":
+            ins = []
+        else:
+            ins = [{"open": "IOpen", "drop": "IDrop", "close": "IClose"}[sg["in"]]]
+            ins += ["(IDial %s 0 None)" % gbool(d == "ok") for d in sg["dials"]]
+        ev = sg["ev"]
+        cnt = lambda k: sum(1 for e in ev if e["k"] == k)
+        times = ([sg["t0"]] if sg["in"] == "drop" and "t0" in sg else []) + [e["t"] for e in ev if e["k"].startswith("dial:")]
+        gaps = [b - a for a, b in zip(times, times[1:])]
+        obs = gpair(gZ(cnt("open")), gZ(cnt("error")), gZ(cnt("close")), gZ(cnt("reconnect_error")),
+                    gZ(cnt("reconnect_failed")),
+                    glist(gZ(e["n"]) for e in ev if e["k"] == "reconnect_attempt"),
+                    glist(gZ(e["n"]) for e in ev if e["k"] == "reconnect"),
+                    glist(gZ(g) for g in gaps))
+        out.append(gpair(glist(ins), obs))
+    return gpair(gZ(row["limit"]), gbool(row["norecon"]), gZ(row["min"]), gZ(row["max"]), gbool(row["jitter"]), glist(out))
+
+
+def rc_env_trouble(row):
+    """a dial failed without reaching the gate (client-side time-out on an overloaded machine) or the rig's
+    own wait expired: the run says nothing about the property"""
+    if row["timeout"]:
+        return True
+    errs = sum(1 for e in row["events"] if e["k"] == "error")
+    fails = sum(1 for e in row["events"] if e["k"].startswith("dial:") and e["k"][5:] in RC_FAIL)
+    return errs > fails
+
+
+def rc_delivery_ok(row):
+    """numbered events emitted while the socket was down: the non-volatile (even) ones emitted before the last
+    connect of the socket all arrive, nothing arrives twice, nothing that was not emitted arrives"""
+    ev_arr = [n for n in row["arrived"] if n % 2 == 0]
+    ev_emit = [n for n in row["emitted"] if n % 2 == 0]
+    if len(set(row["arrived"])) != len(row["arrived"]) or not set(row["arrived"]) <= set(row["emitted"]):
+        return False
+    conns = [e["n"] for e in row["events"] if e["k"] == "socket_connect"]
+    due = [n for n in ev_emit if conns and n < conns[-1]]
+    return set(due) <= set(ev_arr)
+
+
+def reconnect_suite(ctx, vh):
+    n = 40 if ctx.quick else 400
+    rows = ctx.vh_jsonl(vh, "reconnect", ["-seed", ctx.seed, "-n", n, "-par", 10], timeout=900)
+    if rows is None:
+        return
+    import json, os
+    # runs disturbed by the environment are repeated alone; what stays disturbed is counted, not judged
+    for attempt in range(2):
+        redo = [i for i, r in enumerate(rows) if rc_env_trouble(r)]
+        if not redo:
+            break
+        path = os.path.join(ctx.work, "rc_redo_%d.jsonl" % attempt)
+        with open(path, "w") as f:
+            for i in redo:
+                f.write(json.dumps(rows[i]) + "\n")
+        again = ctx.vh_jsonl(vh, "reconnect", ["-replay", path, "-seed", attempt], timeout=900)
+        if again is None:
+            return
+        for i, r in zip(redo, again):
+            rows[i] = r
+    judged = [r for r in rows if not rc_env_trouble(r)]
+    ctx.indeterminate += len(rows) - len(judged)
+    terms = [rc_term(r) for r in judged]
+    bad_oracle, bad_agree = eval_both(ctx, "rc", RC_HDR, terms, shard=max(20, (len(terms) + 7) // 8))
+    bad_deliv = [i for i, r in enumerate(judged) if not rc_delivery_ok(r)]
+    # a failing live case is run once more, alone: only what reproduces is reported
+    suspects = sorted(set(bad_oracle) | set(bad_agree) | set(bad_deliv))
+    if suspects:
+        path = os.path.join(ctx.work, "rc_suspects.jsonl")
+        with open(path, "w") as f:
+            for i in suspects:
+                f.write(json.dumps(judged[i]) + "\n")
+        again = ctx.vh_jsonl(vh, "reconnect", ["-replay", path], timeout=900)
+        if again is None:
+            return
+        keep = [k for k, r in enumerate(again) if not rc_env_trouble(r)]
+        t2 = [rc_term(again[k]) for k in keep]
+        bo2, ba2 = eval_both(ctx, "rc_again", RC_HDR, t2, shard=50)
+        bd2 = [j for j, k in enumerate(keep) if not rc_delivery_ok(again[k])]
+        idx = lambda js: [suspects[keep[j]] for j in js]
+        bo2, ba2, bd2 = set(idx(bo2)), set(idx(ba2)), set(idx(bd2))
+        nrep = lambda first, second: [i for i in first if i in second]
+        ctx.indeterminate += len(set(bad_oracle) - bo2) + len(set(bad_agree) - ba2) + len(set(bad_deliv) - bd2)
+        for j, k in enumerate(keep):
+            judged[suspects[k]] = again[k] if (suspects[k] in bo2 | ba2 | bd2) else judged[suspects[k]]
+        bad_oracle, bad_agree, bad_deliv = nrep(bad_oracle, bo2), nrep(bad_agree, ba2), nrep(bad_deliv, bd2)
+    for r in judged:
+        nd = sum(1 for t in r["script"] if t not in ("open", "drop", "close"))
+        ctx.count(1, nontrivial_key=("rc", r["limit"], r["norecon"], tuple(r["script"])) if nd >= 2 else None,
+                  dist="reconnect:limit%d:%s" % (r["limit"], "gives-up" if any(e["k"] == "reconnect_failed" for e in r["events"]) else "recovers"))
+    ctx.sample({"suite": "reconnect/live", "case": {k: judged[len(judged) // 2][k] for k in ("limit", "norecon", "min", "max", "script")},
+                "events": [e["k"] for e in judged[len(judged) // 2]["events"]]})
+    ctx.obligation("correspondence:reconnect/live", "correspondence", not bad_agree,
+                   "%d scripts against a real Manager + gated real server, %d disagree (%d disturbed runs not judged)" % (
+                       len(judged), len(bad_agree), len(rows) - len(judged)))
+    ctx.obligation("oracle:reconnect/live", "oracle", not bad_oracle, "%d scripts, %d fail" % (len(judged), len(bad_oracle)))
+    ctx.obligation("oracle:reconnect/offline-delivery", "oracle", not bad_deliv,
+                   "%d scripts with numbered emits while down, %d fail" % (len(judged), len(bad_deliv)))
+    show = lambda r: {"limit": r["limit"], "norecon": r["norecon"], "min_ns": r["min"], "max_ns": r["max"], "jitter": r["jitter"],
+                      "script": r["script"], "events": ["%s%s" % (e["k"], (":%d" % e["n"]) if e["n"] else "") for e in r["events"]],
+                      "emitted": r["emitted"], "arrived": r["arrived"]}
+    for i in bad_oracle[:3]:
+        ctx.violation("reconnect: with ReconnectionAttempts=%d%s the manager's events for the outage script %s violate the property "
+                      "(attempt numbering / exactly N attempts then one reconnect_failed / reconnect when reachable / delay before an attempt)"
+                      % (judged[i]["limit"], " (reconnection off)" if judged[i]["norecon"] else "", judged[i]["script"]),
+                      {"kind": "failing-input", "engine": "reconnect", "case": show(judged[i]),
+                       "replay": "vh reconnect -replay <file with this case>"})
+    for i in bad_deliv[:3]:
+        ctx.violation("offline delivery: events emitted while the socket was down %s, arrived at the server %s (even = non-volatile: "
+                      "must arrive exactly once after the reconnect; nothing may arrive twice) for script %s"
+                      % (judged[i]["emitted"], judged[i]["arrived"], judged[i]["script"]),
+                      {"kind": "failing-input", "engine": "reconnect", "case": show(judged[i])})
+    if bad_agree and not bad_oracle:
+        i = bad_agree[0]
+        ctx.violation("the manager's reconnect behaviour differs from the model Sio/Reconnect.v (theorems C15_gives_up_exactly, "
+                      "C15_reconnects_when_up, ... are about the model); script %s" % judged[i]["script"],
+                      {"kind": "correspondence-broken", "suite": "reconnect/live",
+                       "theorems": ["C15_gives_up_exactly", "C15_gives_up_exactly_on_open", "C15_reconnects_when_up",
+                                    "C15_no_reconnection", "C15_idle_is_quiet"], "case": show(judged[i])}, no_input=True)
+
+
 def run(ctx):
     ctx.rule = ("back-off: boundary grid (min x max x attempt x jitter incl. int64 wrap points, attempts 0..70, 1023..1025, 2^31, 2^32-1) "
                 "+ seeded random inputs with the PRNG draw reproduced exactly; non-trivial = the product wraps, jitter is on, or max >= 2^53")
@@ -91,8 +245,9 @@ def run(ctx):
                    "hand-written models Sio/Backoff.v, Sio/Reconnect.v, Sio/OfflineBuffer.v tied by kernel-evaluated correspondence",
                    "harness cmd/vh backoff|reconnect|offline + hook backoff_verif.go"]
     ctx.assumptions = ["math/rand top-level functions follow rand.Seed (Go <= 1.23 behaviour; the engine verifies it per case)"]
-    ctx.proofs(modules=["Sio/BackoffCheck"])
+    ctx.proofs(modules=["Sio/BackoffCheck", "Sio/ReconnectCheck"])
     vh = ctx.go_build()
     if vh is None:
         return
     backoff_suite(ctx, vh)
+    reconnect_suite(ctx, vh)
